@@ -1687,6 +1687,8 @@ func TestSkippy(t *testing.T) { rapid.Check(t, prop("skippy")) }
 		{[]string{"-test.timeout=0", "-rapid.checks=60"}, 60},
 		{[]string{"-rapid.checks=60"}, 60},
 		{[]string{"-test.timeout=1h", "-rapid.checks=35"}, 35},
+		{[]string{"-test.timeout=25s", "-rapid.checks=40"}, 40},                         // a timeout below the default -rapid.shrinktime
+		{[]string{"-test.timeout=10m", "-rapid.shrinktime=1h", "-rapid.checks=45"}, 45}, // a shrink time above the timeout
 		{[]string{"-test.timeout=0", "-test.short", "-rapid.checks=60"}, 12},
 		{[]string{"-test.timeout=0"}, 100},
 	} {
@@ -1706,6 +1708,135 @@ func TestSkippy(t *testing.T) { rapid.Check(t, prop("skippy")) }
 			if cases[tag] != mode.want {
 				return fmt.Sprintf("test binary with %v: the passing %s check ran %d valid test cases, promised %d", mode.args, tag, cases[tag], mode.want), true
 			}
+		}
+	}
+	return "", true
+}
+
+// c13GoTest: one function returned by MakeFuzz run on many inputs in a row (what f.Fuzz does): every input gives the draws that a
+// function made for that input alone gives — whatever the inputs before it were (lengths that are no multiple of 8 after longer
+// inputs full of ones, empty inputs, repeats)
+func c13GoTest(tmp string) (what string, ran bool) {
+	goBin, err := exec.LookPath("go")
+	if err != nil {
+		return "no go tool", false
+	}
+	repo := os.Getenv("VERIF_REPO")
+	if repo == "" {
+		repo = "/repo"
+	}
+	dir, err := os.MkdirTemp(tmp, "c13go-")
+	if err != nil {
+		return err.Error(), false
+	}
+	defer os.RemoveAll(dir)
+	sum, _ := os.ReadFile(filepath.Join(repo, "go.sum"))
+	_ = os.WriteFile(filepath.Join(dir, "go.sum"), sum, 0o644)
+	_ = os.WriteFile(filepath.Join(dir, "go.mod"), []byte("module c13probe\n\ngo 1.18\n\nrequire pgregory.net/rapid v0.0.0\n\nreplace pgregory.net/rapid => "+repo+"\n"), 0o644)
+	_ = os.WriteFile(filepath.Join(dir, "probe_test.go"), []byte(`package c13probe
+
+import (
+	"fmt"
+	"testing"
+
+	"pgregory.net/rapid"
+)
+
+var tag string
+
+func prop(t *rapid.T) {
+	a := rapid.Bool().Draw(t, "a")
+	b := rapid.Uint64().Draw(t, "b")
+	c := rapid.SliceOfN(rapid.Byte(), 0, 3).Draw(t, "c")
+	d := rapid.Bool().Draw(t, "d")
+	fmt.Printf("DRAWS %s %v %v %v %v\n", tag, a, b, c, d)
+	if b == 12345 {
+		t.Fatalf("b")
+	}
+}
+
+func inputs() [][]byte {
+	ones := func(n int) []byte {
+		b := make([]byte, n)
+		for i := range b {
+			b[i] = 0xff
+		}
+		return b
+	}
+	x := uint64(88172645463325252)
+	rnd := func(n int) []byte {
+		b := make([]byte, n)
+		for i := range b {
+			x ^= x << 13
+			x ^= x >> 7
+			x ^= x << 17
+			b[i] = byte(x >> 32)
+		}
+		return b
+	}
+	var in [][]byte
+	for _, n := range []int{64, 9, 17, 3, 0, 33, 1, 48, 47, 25, 8, 7, 41, 12} {
+		in = append(in, ones(n), make([]byte, n), rnd(n), append(make([]byte, n), 1), rnd(n+1))
+	}
+	return in
+}
+
+func TestShared(t *testing.T) {
+	f := rapid.MakeFuzz(prop)
+	for i, in := range inputs() {
+		tag = fmt.Sprintf("shared-%d", i)
+		in := in
+		t.Run(tag, func(t *testing.T) { f(t, in) })
+	}
+}
+
+func TestFresh(t *testing.T) {
+	for i, in := range inputs() {
+		tag = fmt.Sprintf("fresh-%d", i)
+		in := in
+		t.Run(tag, func(t *testing.T) { rapid.MakeFuzz(prop)(t, in) })
+	}
+}
+`), 0o644)
+	build := exec.Command(goBin, "test", "-vet=off", "-c", "-o", "probe.test", ".")
+	build.Dir = dir
+	build.Env = append(os.Environ(), "GOFLAGS=-mod=mod", "GOPROXY=off", "GOSUMDB=off", "GOTOOLCHAIN=local")
+	if out, err := build.CombinedOutput(); err != nil {
+		return "go test -c did not run: " + tail(string(out), 300), false
+	}
+	cmd := exec.Command(filepath.Join(dir, "probe.test"), "-test.count=1", "-test.v")
+	cmd.Dir = dir
+	out, _ := cmd.CombinedOutput()
+	draws := map[string]string{}
+	verdict := map[string]string{}
+	for _, ln := range strings.Split(string(out), "\n") {
+		ln = strings.TrimSpace(ln)
+		if f := strings.SplitN(ln, " ", 3); len(f) == 3 && f[0] == "DRAWS" {
+			draws[f[1]] += f[2] + ";"
+		}
+		for _, v := range []string{"--- PASS: ", "--- FAIL: ", "--- SKIP: "} {
+			if strings.HasPrefix(ln, v) {
+				name := strings.Fields(strings.TrimPrefix(ln, v))[0]
+				if k := strings.LastIndex(name, "/"); k >= 0 {
+					verdict[name[k+1:]] = strings.TrimSpace(strings.Trim(v, "-: "))
+				}
+			}
+		}
+	}
+	n := 0
+	for k := range verdict {
+		if strings.HasPrefix(k, "fresh-") {
+			n++
+		}
+	}
+	if n < 50 {
+		return "the probe did not run: " + tail(string(out), 300), false
+	}
+	for i := 0; i < n; i++ {
+		sh, fr := fmt.Sprintf("shared-%d", i), fmt.Sprintf("fresh-%d", i)
+		if draws[sh] != draws[fr] || verdict[sh] != verdict[fr] {
+			return fmt.Sprintf("input #%d run by a MakeFuzz function that has run other inputs before: %s, draws %s; run by a function of its own: %s, draws %s",
+				i, verdict[sh], draws[sh], verdict[fr], draws[fr]), true
 		}
 	}
 	return "", true
@@ -2056,6 +2187,10 @@ func init() {
 	replayers["efc"] = func(v violation, tmp string) (bool, string) {
 		what := c05ElementFilter(parseWordsGo(v.Params["words"]))
 		return what != "", what
+	}
+	replayers["gotest-fuzz"] = func(v violation, tmp string) (bool, string) {
+		what, ran := c13GoTest(tmp)
+		return ran && what != "", what
 	}
 	replayers["gotest"] = func(v violation, tmp string) (bool, string) {
 		what, ran := c09GoTest(tmp)
